@@ -63,7 +63,7 @@ Value& MemberINSERTExpression::value(Context& ctx) const
           Collection _a(*a);
           Collection::const_iterator it = rv->begin() + p;
           for (Value& e : _a)
-            it = rv->insert(it, std::move(e));
+            it = rv->insert(it, std::move(e)) + 1;
           _a.clear();
         }
         else if (a1.lvalue())
@@ -71,14 +71,14 @@ Value& MemberINSERTExpression::value(Context& ctx) const
           /* inline clone */
           Collection::const_iterator it = rv->begin() + p;
           for (Value& e : *a)
-            it = rv->insert(it, e.clone());
+            it = rv->insert(it, e.clone()) + 1;
         }
         else
         {
           /* move */
           Collection::const_iterator it = rv->begin() + p;
           for (Value& e : *a)
-            it = rv->insert(it, std::move(e));
+            it = rv->insert(it, std::move(e)) + 1;
         }
         return val;
       }
